@@ -27,22 +27,37 @@ class PlantedError(GlomError):
 
 
 class Tok:
-    """a target: identified by a tuple of ints; iterating yields two sub-targets"""
+    """a target: identified by a tuple of ints; iterating yields two sub-targets.  Objects made by a
+    `copy` leaf are distinct from, but compare equal to, the target they were made from (eq class)."""
     _cache = {}
 
-    def __new__(cls, ident):
+    def __new__(cls, ident, like=None):
         ident = tuple(ident)
         if ident not in cls._cache:
             o = object.__new__(cls)
             o.ident = ident
+            o.eqclass = like.eqclass if like is not None and hasattr(like, 'eqclass') else ident
             cls._cache[ident] = o
         return cls._cache[ident]
+
+    def __eq__(self, other):
+        return isinstance(other, Tok) and self.eqclass == other.eqclass
+
+    def __ne__(self, other):
+        return not self == other
+
+    def __hash__(self):
+        return hash(self.eqclass)
 
     def __iter__(self):
         return iter([Tok(self.ident + (1,)), Tok(self.ident + (2,))])
 
     def __repr__(self):
         return 't' + '.'.join(str(i) for i in self.ident)
+
+
+def skip_all(value):
+    return True
 
 
 class Run:
@@ -65,7 +80,11 @@ class Leaf:
         n = r.leaf
         if n <= len(r.plan) and r.plan[n - 1] == 'err':
             raise PlantedError(n)
-        return Tok((n,)) if self.kind == 'new' else target
+        if self.kind == 'new':
+            return Tok((n,))
+        if self.kind == 'copy':
+            return Tok((n,), like=target)
+        return target
 
     def __repr__(self):
         return '%s%s' % (self.kind.capitalize(), ''.join(str(i) for i in self.path))
@@ -111,11 +130,34 @@ def classify(seen):
 INV = ('inv',)
 
 
+class VDefault:
+    def __repr__(self):
+        return 'vdefault'
+
+
+VDEFAULT = VDefault()
+
+
+class Mark:
+    """logs that it ran"""
+    def __init__(self, run, path):
+        self.run, self.path = run, tuple(path)
+
+    def glomit(self, target, scope):
+        self.run.log.append({'p': list(self.path), 'what': 'mark', 'v': ['m']})
+        return target
+
+    def __repr__(self):
+        return 'Mark%s' % ''.join(str(i) for i in self.path)
+
+
 class Read:
     """logs what S.<name> (or S.globals.<name>) resolves to at this position"""
-    def __init__(self, run, path, name, glob=False, style='attr'):
-        self.run, self.path, self.name, self.glob = run, tuple(path), name, glob
-        if glob:
+    def __init__(self, run, path, name, glob=False, style='attr', what='read'):
+        self.run, self.path, self.name, self.glob, self.what = run, tuple(path), name, glob, what
+        if what == 'vread':
+            self.spec = Coalesce(getattr(getattr(S, name), 'k'), default=Val(INV))
+        elif glob:
             self.spec = Coalesce(getattr(S.globals, name), default=Val(INV))
         elif style == 'item':
             self.spec = Coalesce(S[name], default=Val(INV))
@@ -124,7 +166,7 @@ class Read:
 
     def glomit(self, target, scope):
         v = scope[GLOM](target, self.spec, scope)
-        self.run.log.append({'p': list(self.path), 'what': 'read', 'v': abstract_val(v)})
+        self.run.log.append({'p': list(self.path), 'what': self.what, 'v': abstract_val(v)})
         return target
 
     def __repr__(self):
@@ -145,6 +187,8 @@ def abstract_val(v):
         return ['inv']
     if isinstance(v, BVal):
         return ['b'] + list(v.path)
+    if v is VDEFAULT:
+        return ['d']
     if isinstance(v, Tok):
         return ['t'] + list(v.ident)
     if isinstance(v, str):
@@ -172,7 +216,7 @@ def build(tree, run, path=(), index=None):
 
     def child(i):
         return build(c[i], run, path + (i + 1,), index)
-    if k in ('new', 'same', 'fail'):
+    if k in ('new', 'same', 'copy', 'fail'):
         s = Leaf(run, k, path)
     elif k == 'smiss':
         s = getattr(S, 'nope%s' % ''.join(str(i) for i in path))
@@ -187,6 +231,24 @@ def build(tree, run, path=(), index=None):
         s = Read(run, path, a)
     elif k == 'gread':
         s = Read(run, path, a, glob=True)
+    elif k == 'vread':
+        s = Read(run, path, a, what='vread')
+    elif k == 'mark':
+        s = Mark(run, path)
+    elif k == 'vbind':
+        from glom import Vars
+        v = Vars({'k': VDEFAULT})
+        s = S(**{a: v})
+        if index is not None:
+            index[id(v)] = path + (0,)
+    elif k == 'vset':
+        s = getattr(getattr(A, a), 'k')
+    elif k == 'refdef':
+        from glom import Ref
+        s = Ref(a, child(0))
+    elif k == 'refuse':
+        from glom import Ref
+        s = Ref(a)
     elif k == 'sbind':
         v = Val(BVal(path))
         s = S(**{a: v})
@@ -210,6 +272,8 @@ def build(tree, run, path=(), index=None):
         s = [child(0)]
     elif k == 'coal':
         s = Coalesce(*[child(i) for i in range(len(c))])
+    elif k == 'coalskip':
+        s = Coalesce(*[child(i) for i in range(len(c))], skip=skip_all)
     elif k == 'or':
         s = Or(*[child(i) for i in range(len(c))])
     elif k == 'and':
@@ -306,11 +370,16 @@ def normalise(events):
     return out
 
 
-def execute(tree, plan, caller_scope=None, hook=True):
-    """run the real library on the realisation of tree; returns dict(out, log, events, error)"""
-    run = Run(plan)
-    index = {}
-    spec = build(tree, run, (), index)
+def execute(tree, plan, caller_scope=None, hook=True, prebuilt=None):
+    """run the real library on the realisation of tree; returns dict(out, log, events, error).
+    prebuilt: (spec, run, index) of an earlier execute() -- evaluates the SAME spec objects again"""
+    if prebuilt is not None:
+        spec, run, index = prebuilt
+        run.plan, run.leaf, run.log = plan, 0, []
+    else:
+        run = Run(plan)
+        index = {}
+        spec = build(tree, run, (), index)
     rec = Recorder(index)
     if hook:
         glom.core._verif_install(rec)
@@ -327,5 +396,5 @@ def execute(tree, plan, caller_scope=None, hook=True):
     finally:
         if hook:
             glom.core._verif_install(None)
-    out.update(log=run.log, events=normalise(rec.events), spec=spec, index=index)
+    out.update(log=run.log, events=normalise(rec.events), spec=spec, index=index, prebuilt=(spec, run, index))
     return out
